@@ -28,6 +28,18 @@ def _to_literal(value):
         return value
 
 
+def _value_alignment(member):
+    """Alignment of the member's type itself (member.alignment also covers the optional flag and the part)."""
+    type_name, definition = member.type_name, member.definition
+    while isinstance(definition, model.Typedef):
+        type_name, definition = definition.type_name, definition.definition
+    if isinstance(definition, (model.Struct, model.Union)):
+        return definition.alignment
+    if isinstance(definition, model.Enum):
+        return model.ENUM_SIZE
+    return model.BUILTIN_SIZES.get(type_name)
+
+
 class _Padder(object):
     PADDINGS = (
         (1, 'uint8_t'),
@@ -121,7 +133,10 @@ class _HppDefinitionsTranslator(TranslatorBase):
             else:
                 field = '{0} {1};\n'.format(typename, member.name)
             if member.optional:
-                field = 'prophy::bool_t has_{0};\n'.format(member.name) + field
+                flag = 'prophy::bool_t has_{0};\n'.format(member.name)
+                if _value_alignment(member) == 8:
+                    flag += padder.generate_padding(4)
+                field = flag + field
             if member.padding is not None and member.padding > 0:
                 field += padder.generate_padding(member.padding)
             return field
